@@ -111,8 +111,14 @@ func loadEngine(repo, verif string) (*Engine, error) {
 	}
 	e := &Engine{x: x, cs: cs, repo: repo, verif: verif, pkgs: pkgs, spkgs: spkgs, loadMs: time.Since(t0).Milliseconds()}
 	// resolve modular contracts up front
+	summarised := map[string]bool{}
 	for _, ct := range cs.contracts {
-		if ct.modular && !ct.lemma {
+		for _, sm := range ct.summarise {
+			summarised[ct.pkg+"."+sm[0]+"/"+sm[1]] = true
+		}
+	}
+	for _, ct := range cs.contracts {
+		if (ct.modular || summarised[ct.pkg+"."+ct.fnName+"/"+ct.id]) && !ct.lemma {
 			func() {
 				defer func() { recover() }()
 				fn := x.resolveFunc(ct)
